@@ -136,6 +136,8 @@ type Engine struct {
 	funcIDs    map[*ssa.Function]int
 	funcByID   map[int]*ssa.Function
 	ghostFields map[string][]GhostField // "pkgpath.Type" -> ghost fields
+	guards      map[string]map[string]*GuardDecl // "pkgpath.Type" -> field -> lock discipline
+	guardDecls  map[string][]*GuardDecl          // package path -> declarations
 	knownFailing map[string]bool       // obligation names listed as known findings: never assumed at call sites
 }
 
@@ -531,6 +533,7 @@ func (e *Engine) rowRangeAxiom(key string, row Term) Term {
 
 type Exec struct {
 	eng      *Engine
+	proxies  []proxyRec // stand-in objects of embedded structs whose address was stored in memory
 	ctx      *Ctx
 	initHeap map[string]Term
 	writeLog map[string]bool
